@@ -8,6 +8,7 @@ package builtins
 
 // every value of type Builtin computes builtinOut of itself and its arguments
 //@ functype Builtin(args)
+//@ modifies fsid, execRes
 //@ ensures result1 == nil ==> result0 == builtinOut(self, args)
 
 // Get: lookup in the package-level map literal {"join": join, "exec": execute}
@@ -21,7 +22,7 @@ package builtins
 
 //@ func execute
 //@ ensures [C13,exec-one-argument] len(command) != 1 ==> result1 != nil
-//@ modifies execRes
+//@ modifies execRes, fsid
 //@ at return Run#0: ghost execRes = result
 //@ ensures [C13,exec-ran-the-argument] result1 == nil ==> execRes.Cmd == command[0]
 //@ ensures [C13,exec-succeeded] result1 == nil ==> execRes.Status == 0
